@@ -7,6 +7,7 @@ import AdaptiveModel.Drv.Avg1D
 import AdaptiveModel.Drv.L1D
 import AdaptiveModel.Drv.Balancing
 import AdaptiveModel.Drv.Tri
+import AdaptiveModel.Drv.LND
 import AdaptiveModel.Drv.Integ
 import AdaptiveModel.Drv.Prims
 /-!
@@ -20,6 +21,7 @@ structure All where
   avg : Avg.State Float := Avg.init none none 2
   a1 : Avg1D.State Float := { minSamples := 0, maxSamples := 0, neighborSampling := 0 }
   bal : Balancing.Drv.St := Balancing.init [] .cycle
+  lnd : LND.Drv.D := {}
   tri : Tri.State := { dim := 2, nVerts := 0, simplices := [], vts := [] }
   integ : Integ.Drv.D := {}
   run : Runner.State := Runner.init { ntasks := 1, retries := 0, raiseIf := true, blocking := true, doLog := false }
@@ -34,6 +36,7 @@ def stepAll (a : All) (line : String) : All × String :=
   | "l1" :: rest => let (s, o) := L1D.Drv.stepLine a.l1 rest; ({ a with l1 := s }, o)
   | "bal" :: rest => let (s, o) := Balancing.Drv.stepLine a.bal rest; ({ a with bal := s }, o)
   | "integ" :: rest => let (s, o) := Integ.Drv.stepLine a.integ rest; ({ a with integ := s }, o)
+  | "lnd" :: rest => let (s, o) := LND.Drv.stepLine a.lnd rest; ({ a with lnd := s }, o)
   | "tri" :: rest => let (s, o) := Tri.Drv.stepLine a.tri rest; ({ a with tri := s }, o)
   | "save" :: rest => (a, SaveFs.Drv.stepLine rest)
   | "prims" :: rest => (a, Prims.Drv.stepLine rest)
